@@ -68,7 +68,13 @@ POps(s) ==
 
 FOps(f) ==
   IF ~f.owner THEN {[a |-> "drop", name |-> nm] : nm \in Names}
-  ELSE {[a |-> "create", name |-> nm, rec |-> r, hold |-> h] : nm \in Names, r \in BOOLEAN, h \in BOOLEAN}
+  ELSE \* creating a tensor attribute under a name is specified only while no tensor object of that name
+       \* lives (bound or still referenced): the constructors register their linked attributes with
+       \* register_buffer / register_extra / setattr, which refuse or clobber what a living predecessor
+       \* registered, and the predecessor's finaliser then removes the attributes by NAME.  The hazard run
+       \* (Wipes = TRUE) keeps offering it to show the consequence at specification level.
+       {[a |-> "create", name |-> nm, rec |-> r, hold |-> h] :
+            nm \in {n \in Names : f.wipes \/ \A i \in DOMAIN f.objs : f.objs[i].name # n}, r \in BOOLEAN, h \in BOOLEAN}
        \cup {[a |-> "del_attr", name |-> nm] : nm \in Names}
        \cup {[a |-> "drop", name |-> nm] : nm \in Names}
        \cup {[a |-> "del_owner"]}
